@@ -95,6 +95,12 @@ func c04Jobs(tier string) []string {
 	// the left of SND.NXT while unsent data is queued (RFC 7323 2.4); nothing new may be sent
 	add("or=w,devs=kh,mss=1001,ws=3,pwnd=4004,pfix=1,wfloor=1,w=8008,b=1", 1)
 	add("or=w,devs=kwhl,mss=100,ws=2,pwnd=403,pfix=1,wfloor=1,rtt=50,w=9x100,b=1", 2)
+	// a peer that takes window back: a second ACK with the same acknowledgement number and a
+	// smaller window (0, 1, MSS/2) moves its right edge left; data already sent may be
+	// retransmitted, but nothing new may go beyond the edge now in force
+	add("or=w,devs=n,mss=100,pwnd=1000,w=300+700,b=1", 1)
+	add("or=w,devs=nkh,mss=100,pwnd=1000,w=300+700,rtt=50,b=1", 1)
+	add("or=w,devs=n,mss=100,ws=2,pwnd=250,w=1500,b=1", 1)
 	// our handshake ACK is lost and the peer repeats its SYN-ACK after the connection is up: the
 	// window field of a SYN is never scaled
 	// a receive buffer that is not a multiple of the window-scale unit: the peer fills the scaled
